@@ -27,7 +27,8 @@ def pauli_label_to_bsv(pauli: PauliLabel) -> BinarySymplecticVector:
     z: int = 0
     phase: complex = 1
     for i, p in pauli:
-        b = 1 << i
+        # int(): a numpy integer index would be shifted in fixed width
+        b = 1 << int(i)
         if p == SinglePauli.X:
             x += b
         elif p == SinglePauli.Y:
